@@ -69,6 +69,27 @@ CHECKS = {
         "stays 2 s away from window boundaries and the theorems cover the boundaries.",
    technique="Lean 4 proof (scope/window/key-selection characterisations) + model/implementation differential check",
    ref="DESIGN.md section 5 C09"),
+ "C10": dict(engine="group",
+   text="Lean 4 theorems over every interleaving of the critical sections of group.go (admission soundness for every state, operator/system exemption, refused ⇒ not "
+        "inserted and nothing announced, pairwise distinct member ids and the capacity bound along arbitrary step lists, fresh autolock group locked, autolock after the "
+        "last operator left for the machine in which DelClient's removal and autoLockKick are one critical section — which the code now is, after the fix; the proved "
+        "counterexample schedule for the split machine is kept), tied to the real AddClient/DelClient/SetLocked/Add by a differential run with mock clients including "
+        "the forced two-thread schedule; the harness probes on the real code which variant (delAtomic, initLate) it is running against",
+   note=TB + "Sequential at critical-section granularity plus forced schedules; mock clients. Token credentials, password hashing and username validation are outside "
+        "(C08/C09/C19). Client discipline assumed: a member object does not start a second join; unlock only while an operator is a member.",
+   technique="Lean 4 invariant proofs over interleavings of critical sections + differential check with forced schedules",
+   ref="DESIGN.md section 5 C10"),
+ "C13": dict(engine="unbounded+locks+group",
+   text="(a) Lean 4 proofs over all interleavings of any number of producers (Put split into locked append and signal) and one consumer of unbounded.Channel: no lost "
+        "wakeup, exactly-once in lock order, per-producer order, everything delivered at quiescence; (b) generic theorem acyclic_order_no_deadlock + bridge from an edge "
+        "list, side condition `acyclic Generated.lockEdges` re-decided in the kernel on lock-order facts regenerated from the source (go/ast + go/types extractor) on "
+        "every run; (c) generic theorem guarded_no_race + certificate check on regenerated access/call facts (Group, groups, Channel, Cache, Map, WhipClient fields "
+        "with their mutexes).  On the current tree both side conditions hold; cycles or unguarded accesses are reported as oracle events with the witness, with "
+        "deterministic deadlock replays (whipdl, shutdowndl) and a -race stress in the thorough tier whose reports must lie within the predicted functions",
+   note=TB + "The fact extractor (claims to list every acquire/call/guarded access; fails closed to `unknown`; cross-validated by the -race stress); type-level lock naming; "
+        "sync.Mutex/channel semantics; fairness assumed for 'eventually seen'.",
+   technique="Lean 4 proofs (channel protocol; generic lock-order and guard theorems) + regenerated static facts decided in the kernel + forced schedules and -race stress",
+   ref="DESIGN.md section 5 C13, Appendix C"),
  "C12": dict(engine="codecs+down (+sig, api when integrated)",
    text="Media part proved in Lean 4: the transcriptions of PacketFlags, RewritePacket, Keyframe (VP8, VP9, AV1 OBU walk, H.264 single/STAP/MTAP/FU), "
         "KeyframeDimensions and of pion's RTP/VP8/VP9 parsers never evaluate an out-of-range index and never change a packet's length, for every byte list and codec "
@@ -110,7 +131,7 @@ CHECKS = {
    text="Lean 4 refinement proof (ring buffer with three-way resize refines a bounded FIFO; Get/GetAt soundness; newest-window retrievability) for "
         "every capacity ≥ 1 and every op sequence, tied to packetcache.Cache by a differential run of the model against the real API on every check, "
         "plus a concurrent reader/writer stress whose results are checked byte-exactly",
-   note=TB + "len(buf) in 1..1504, capacity ≥ 1; every Cache method holds cache.mu for its whole body.",
+   note=TB + "len(buf) in 1..1504, capacity ≥ 1; every Cache method holds cache.mu for its whole body (regenerated fact, Props/C05Locks).",
    technique="Lean 4 refinement proof + model/implementation differential check + concurrent stress",
    ref="DESIGN.md section 5 C05"),
 }
